@@ -122,6 +122,37 @@ def _trunc_int(v):
     return v
 
 
+def _round32(v):
+    """storing a real into a float32 slot (engine option fp32_round): an uninterpreted rounding
+    R32 with what every rounding-to-nearest satisfies -- sign and zero kept, relative error at most
+    2^-24 (absolute 2^-150 in the subnormal range), monotone on the values that occur, idempotent"""
+    if isinstance(v, builtins.float):
+        import struct
+
+        return struct.unpack("f", struct.pack("f", v))[0] if v == v and abs(v) < 3.4e38 else v
+    if not isinstance(v, SR):
+        return v
+    E = core.ENG
+    if z3.is_app(v.e) and v.e.decl().name() == "R32":
+        return v
+    f = z3.Function("R32", z3.RealSort(), z3.RealSort())
+    r = f(v.e)
+    a = z3.If(v.e >= 0, v.e, -v.e)
+    E.solver.add(
+        z3.Implies(v.e == 0, r == 0),
+        z3.Implies(v.e > 0, r >= 0),
+        z3.Implies(v.e < 0, r <= 0),
+        z3.Or(z3.And(r - v.e <= a * core._rv(2.0 ** -24), v.e - r <= a * core._rv(2.0 ** -24)), z3.And(a < core._rv(2.0 ** -126), r - v.e <= core._rv(2.0 ** -150), v.e - r <= core._rv(2.0 ** -150))),
+    )
+    E.solver.add(f(r) == r, f(-r) == -r)  # a float32 value (or its negative) is stored exactly
+    for (w, rw) in getattr(E, "_r32s", []):
+        E.solver.add(z3.Implies(v.e <= w, r <= rw), z3.Implies(v.e >= w, r >= rw))
+    E._r32s = getattr(E, "_r32s", []) + [(v.e, r)]
+    E._dirty = True
+    E.uflog.append(("R32", [v.e], r))
+    return SR(r, v.bad)
+
+
 def _coerce(v, dt):
     if dt.kind == "i":
         return _trunc_int(v)
@@ -136,6 +167,8 @@ def _coerce(v, dt):
             return 1.0 if v else 0.0
         if isinstance(v, builtins.int):
             return builtins.float(v)
+        if dt == float32 and getattr(core.ENG, "fp32_round", False):
+            return _round32(v)
         return v
     if dt.kind == "b":
         if isinstance(v, (SB, builtins.bool)):
